@@ -643,6 +643,13 @@ pub fn kv_list(m: &BTreeMap<String, String>, k: &str) -> Result<Vec<i64>, String
 /// The exploring process was killed by a signal (a subject that corrupts memory can take the
 /// in-process explorer down with it): recorded like a hang - a violation whose replay re-runs the tier.
 pub fn report_crash(id: &str, tier: Tier, root: &std::path::Path, signal: i32, wall: f64) -> ! {
+    // only the signals a faulting subject raises in its own process are a verdict (SIGILL 4, SIGABRT 6,
+    // SIGBUS 7, SIGFPE 8, SIGSEGV 11); a process killed from outside (SIGKILL by the out-of-memory
+    // killer, SIGTERM, SIGINT ...) says nothing about the subject: machinery error, exit 2
+    if ![4, 6, 7, 8, 11].contains(&signal) {
+        eprintln!("MACHINERY-ERROR property={} tier={} the exploring process was killed from outside by signal {} after {:.1} s; no verdict", id, tier.name(), signal, wall);
+        std::process::exit(2);
+    }
     let dir = root.join("replays").join(id);
     let _ = std::fs::remove_dir_all(&dir);
     let _ = std::fs::create_dir_all(&dir);
